@@ -239,6 +239,22 @@ pub fn scenarios(prop: Prop) -> Vec<StreamTrace> {
         ];
         add(build(prop, "c04_storm_long_frame", ps, vec![1029, 2000, 2058, 3000], vec![], 1, "aimed"), &mut out);
     }
+    // 10. buffers crossing the 64 KiB mark: a frame followed by a suffix such that the slice handed
+    //     to the framer is 65536 + k bytes long (arithmetic in 16-bit types would wrap here)
+    for l in [0usize, 1, 2, 19] {
+        for k in [0usize, 1, 5, 6, 7, 8, 24, 25] {
+            let v = ((l + k) % 4) as u8 + 1;
+            let f = frame_piece(l, 0, 0x3C);
+            let pad = 65536 + k - f.bytes.len();
+            let ps = vec![f, piece("noise:zeros", "noise", vec![0u8; pad], false), frame_1005()];
+            add(build(prop, &format!("buffer_64k_plus_{}_L{}", k, l), ps, vec![], vec![], v, "one_shot"), &mut out);
+        }
+    }
+    {
+        // a frame in the middle of a 128 KiB buffer, delivered in two halves
+        let ps = vec![piece("noise:zeros", "noise", vec![0u8; 70_000], false), frame_1005(), frame_piece(0, 0, 0), piece("noise:zeros", "noise", vec![0u8; 61_000], false), frame_piece(1, 0, 7)];
+        add(build(prop, "frames_inside_128k_buffer", ps, vec![65_536], vec![], 4, "aimed"), &mut out);
+    }
     // 9. receiver restarts in the middle of a frame
     for v in 1..=4u8 {
         let ps = vec![frame_1005(), frame_piece(30, 0, 0x21), frame_1005(), frame_piece(0, 0, 0)];
